@@ -312,6 +312,37 @@ fn real_borrow(sig: &Sig) -> Result<String, String> {
     }
 }
 
+/// nanobind numbers call arguments from 1 (0 is the return value); a constructor has no return value, its nurse is
+/// the object under construction (argument 1) and every parameter sits one position further right.
+fn nanobind_position_probe(rep: &mut Report) {
+    let src = "#[diplomat::bridge]\nmod ffi {\n    #[diplomat::opaque]\n    pub struct Op0;\n    #[diplomat::opaque]\n    pub struct Op1<'x>(&'x u8);\n    impl<'m0> Op1<'m0> {\n        #[diplomat::attr(auto, constructor)]\n        pub fn f(p0: u8, p1: &'m0 Op0, p2: &'m0 [u8]) -> Box<Op1<'m0>> { unimplemented!() }\n        pub fn g(p0: u8, p1: &'m0 Op0) -> Box<Op1<'m0>> { unimplemented!() }\n        pub fn h<'a>(&'a self, p0: u8, p1: &'a Op0) -> Box<Op1<'a>> { unimplemented!() }\n    }\n}\n";
+    let o = tool::run_backend(src, "nanobind");
+    rep.oracle_runs += 1;
+    rep.count("probe:nanobind-positions");
+    let case = "(c04 probe nanobind-keep-alive-positions)";
+    if !o.ok() {
+        rep.oracle_fail(case, "nanobind backend failed on the keep_alive position probe", json!(o.status()));
+        return;
+    }
+    let text = o.files.iter().find(|(k, _)| k.ends_with("_ext.cpp")).map(|(_, v)| v.clone()).unwrap_or_default();
+    let want: [(&str, &[&str], &[&str]); 3] = [
+        ("nb::new_(&Op1::f)", &["nb::keep_alive<1, 3>()", "nb::keep_alive<1, 4>()"], &["nb::keep_alive<1, 2>()", "nb::keep_alive<0,"]),
+        ("&Op1::g", &["nb::keep_alive<0, 2>()"], &["nb::keep_alive<0, 1>()", "nb::keep_alive<1,"]),
+        ("&Op1::h", &["nb::keep_alive<0, 1>()", "nb::keep_alive<0, 3>()"], &["nb::keep_alive<0, 2>()", "nb::keep_alive<1,"]),
+    ];
+    for (key, must, must_not) in want {
+        let Some(line) = text.lines().find(|l| l.contains(key)) else {
+            rep.oracle_fail(case, "a method of the probe has no nanobind binding", json!({"binding": key}));
+            continue;
+        };
+        let missing: Vec<&&str> = must.iter().filter(|m| !line.contains(**m)).collect();
+        let extra: Vec<&&str> = must_not.iter().filter(|m| line.contains(**m)).collect();
+        if !missing.is_empty() || !extra.is_empty() {
+            rep.oracle_fail(case, "nanobind keeps the wrong argument alive for a returned object that borrows from its inputs", json!({"binding": line.trim(), "missing": missing, "unexpected": extra, "source": src}));
+        }
+    }
+}
+
 /// Backend emission: what the analysis lists as borrowed-from must be attached to the returned object by the
 /// generated JS / Dart code (edge list + routing of slice copies of struct fields into it) and kept alive by
 /// nanobind. `real` is the analysis' own answer (public API), not the model's.
@@ -368,9 +399,27 @@ fn check_emission(sig: &Sig, real: &str, case: &str, rep: &mut Report) {
                     keep.insert(idx);
                 }
             }
-            for idx in keep {
+            for idx in &keep {
                 if !line.contains(&format!("nb::keep_alive<0, {idx}>()")) {
                     missing.push(format!("nb::keep_alive<0, {idx}>() for a borrowed-from parameter"));
+                }
+            }
+            // the same method as a constructor: the nurse is the object under construction (argument 1), so every
+            // patient moves one position up
+            if sig.self_lt.is_none() && !sig.fallible && matches!(&sig.ret, RTy::BoxOpaque { ty, .. } if *ty == sig.owner) {
+                let ctor_src = src.replace("pub fn f", "#[diplomat::attr(auto, constructor)]\n        pub fn f");
+                let oc = tool::run_backend(&ctor_src, "nanobind");
+                if oc.ok() {
+                    rep.count("emission:nanobind:constructor");
+                    if let Some(cl) = oc.files.iter().find(|(k, _)| k.ends_with("_ext.cpp")).and_then(|(_, v)| v.lines().find(|l| l.contains(&format!("nb::new_(&{owner}::f)")))) {
+                        for idx in &keep {
+                            if !cl.contains(&format!("nb::keep_alive<1, {}>()", idx + 1)) {
+                                missing.push(format!("as a constructor: nb::keep_alive<1, {}>() for a borrowed-from parameter (binding: {})", idx + 1, cl.trim()));
+                            }
+                        }
+                    } else {
+                        missing.push("as a constructor: no nb::new_ binding was generated".into());
+                    }
                 }
             }
         } else {
@@ -512,6 +561,7 @@ pub fn main(args: &[String]) {
     let mut rep = Report::new("C04");
     let thorough = a.tier == "thorough";
     let mut rng = Rng::new(a.seed);
+    nanobind_position_probe(&mut rep);
     let n = if a.n > 0 { a.n } else if thorough { 20000 } else { 2000 };
     let sigs: Vec<Sig> = (0..n).map(|i| gen_sig(&mut rng, if thorough && i % 4 == 0 { 6 } else { 4 }, true)).collect();
     let lines: Vec<String> = sigs.iter().map(|s| s.sexp()).collect();
